@@ -513,6 +513,7 @@ pub fn plan_c11(thorough: bool) -> Plan {
     }
     cases.extend(attempt_in_between_family());
     cases.extend(disjoint_pages_chain_family("all"));
+    cases.extend(emptied_and_refilled_cluster_family("all"));
     cases.extend(writeless_overlay_family());
     sort_by_bound(&mut cases);
     let mut p = Plan::new(
@@ -773,6 +774,34 @@ pub fn writeless_overlay_family() -> Vec<Value> {
     cases
 }
 
+
+/// A stored cluster page emptied by an older overlay and partly refilled by a younger one: the
+/// older overlay deletes all 20 keys under the depth-2 page (the page is cleared in that overlay),
+/// the younger one writes k of them back (k = 1, 2, 3, 19: the page exists again but elided; 20,
+/// 21: stored again); sessions on [younger, older] prove every key.
+pub fn emptied_and_refilled_cluster_family(audit: &str) -> Vec<Value> {
+    let mut cfg = rb_cfg(3, 0);
+    cfg.buckets = 64;
+    let uni = vec!["CL12:0-24"]; // 0..19 present in the seed, 20..23 absent
+    let mut cases = vec![];
+    for k in [1u64, 2, 3, 19, 20, 21] {
+        for shift in [0u64, 2] {
+            let refill: Vec<Value> = (0..k).map(|i| w((i + shift) % 24, 3)).collect();
+            cases.push(case("cl12x20", uni.clone(), &cfg, audit, vec![
+                json!({"ov": {"id": 0, "on": [], "b": [[0, "dn", 20]]}}),
+                json!({"ov": {"id": 1, "on": [0], "b": refill}}),
+                json!({"ov": {"id": 2, "on": [1, 0], "b": [w(22, 1)]}}),
+                json!({"ovc": 0}),
+                json!({"ov": {"id": 3, "on": [2, 1], "b": [w(23, 1)]}}),
+                json!({"ovc": 1}),
+                json!({"ovc": 2}),
+                json!({"rb": 1}),
+            ], 4, true));
+        }
+    }
+    cases
+}
+
 pub fn plan_c12(thorough: bool) -> Plan {
     let mut cases = vec![];
     for (seed, uni, batches) in [
@@ -928,12 +957,13 @@ pub fn plan_c05(thorough: bool) -> Plan {
     }
     cases.extend(tombstone_family("proofs", thorough));
     cases.extend(disjoint_pages_chain_family("proofs"));
+    cases.extend(emptied_and_refilled_cluster_family("proofs"));
     add_quiet(&mut cases, if thorough { 1 } else { 2 });
     add_io_reverse(&mut cases, if thorough { 2 } else { 3 });
     sort_by_bound(&mut cases);
     let mut p = Plan::new(
         cases,
-        "histx: all histories of ≤D commits with ≤B key actions {insert, delete} over a 4-key family and over 19/20/21-key merkle clusters (paths crossing elided pages), hash tables of 8/32/4096 buckets, minimum page cache; universe = the keys plus, for each, the absent keys differing in exactly one of bits {0,1,5,6,7,11,12,13,18,127,254,255}; after every commit and after a final reopen (cold cache) every universe key is proven in a fresh session: the proof verifies against session.prev_root() (= reference root) and confirms exactly the model's view (value hash for present keys, non-existence for absent ones); plus sessions layered on overlay chains of depth 1–2 and 3 over the cluster, overlays deleting runs of 1..11 consecutive on-disk keys across several value-leaf pages, and the tombstone family (tiny hash tables of 16/32 buckets × 16 bitbox seeds, 10 pages inserted, every single page and every pair of pages removed again, then a cold reopen).",
+        "histx: all histories of ≤D commits with ≤B key actions {insert, delete} over a 4-key family and over 19/20/21-key merkle clusters (paths crossing elided pages), hash tables of 8/32/4096 buckets, minimum page cache; universe = the keys plus, for each, the absent keys differing in exactly one of bits {0,1,5,6,7,11,12,13,18,127,254,255}; after every commit and after a final reopen (cold cache) every universe key is proven in a fresh session: the proof verifies against session.prev_root() (= reference root) and confirms exactly the model's view (value hash for present keys, non-existence for absent ones); plus sessions layered on overlay chains of depth 1–2 and 3 over the cluster, overlays deleting runs of 1..11 consecutive on-disk keys across several value-leaf pages, chains whose overlays touch disjoint merkle pages, a stored 20-key cluster page emptied by an older overlay and refilled with 1/2/3/19/20/21 keys by a younger one (sessions on both), and the tombstone family (tiny hash tables of 16/32 buckets × 16 bitbox seeds, 10 pages inserted, every single page and every pair of pages removed again, then a cold reopen).",
     );
     p.budget_s = if thorough { 1700 } else { 55 };
     p
@@ -1119,12 +1149,30 @@ pub fn plan_c13(thorough: bool) -> Plan {
     // around tombstones, cold reopen (the result must not depend on buckets / seed)
     cases.extend(tombstone_family("root", thorough));
     cases.extend(bulk_warm_up_family("all"));
+    // a batch over 8000 keys on a COLD store (reopened, nothing read back) with minimum caches: one
+    // merkle worker has to keep far more seeks than its in-flight page budget; 1, 2 and 64 workers
+    for cc in [1usize, 2, 64] {
+        let mut cfg = Cfg::default();
+        cfg.cc = cc;
+        cfg.buckets = 64000;
+        // (no cache at all and no pinned levels for 1 and 64 workers: every page and every leaf
+        // is fetched whenever it is needed)
+        cfg.page_cache = if cc == 2 { 1 } else { 0 };
+        cfg.leaf_cache = if cc == 2 { 1 } else { 0 };
+        cfg.upper_levels = if cc == 2 { 2 } else { 0 };
+        let ops = vec![json!({"reopen": {"cold": true}}), json!({"c": [[0, "wn", 8000]]}), json!({"reopen": {"cold": true}}), json!({"c": [[0, "dn", 7000]]})];
+        let mut cse = case("big8k", vec!["seed:0,1,4000,7998,7999"], &cfg, "all", ops, 3, true);
+        cse["universe"] = json!(["seed:all"]);
+        cse["audit"] = json!("root");
+        cse["quiet"] = json!(true);
+        cases.push(cse);
+    }
     cases.extend(crate::schedx::worker_schedule_cases(thorough));
     add_quiet(&mut cases, 1);
     sort_by_bound(&mut cases);
     let mut p = Plan::new(
         cases,
-        "histx: deviation-bounded enumeration of the option space around the default configuration: every configuration with ≤1 (thorough ≤2) option moved to another menu value {commit_concurrency 2,3,5,6,7,16,64,65; warm_up; adversarial device (the I/O workers deliver the completions of a burst newest first); page cache 0/1 MiB; leaf cache 0/1 MiB; io_workers 2,3; hashtable_buckets 1000 (not a power of two), 65536; another bitbox seed; page_cache_upper_levels 0,1,3 with and without prepopulation; rollback on} × a fixed set of 7 multi-commit histories that span several workers' key ranges (one of them a two-leaf trie whose terminals straddle the range boundaries of 3, 5, 6 and 7 workers), plus the tombstone family (16/32-bucket tables × searched bitbox seeds, pages removed and re-inserted, cold reopen), witnessed batches of 650–1300 warmed-up keys with 1 and 2 workers, the shared root page, the elision threshold from both sides (19- and 21-key clusters), overflow values, leaf and branch splits/merges, each with a mid-history reopen; every commit is witnessed; oracle: roots, values, proofs for every universe key, witness verification and update replay all equal the reference model (hence equal across configurations). Thread interleavings of the internal workers: every schedule with ≤2 (thorough: all) preemptions of the three merkle update workers of one witnessed commit (worker start, publish child-page roots, hand back the write pass, root-page phase) under the controlled scheduler, two batches (updates / deletes incl. a root-page leaf). Also ALL schedules (a few hundred per batch) of the three beatree leaf-stage workers of one commit whose ranges are three consecutive leaves that all fall below the merge threshold (three batches: two of three values deleted / values shrunk and last leaf deleted / middle leaf deleted), i.e. of the extend-range protocol between neighbouring workers (poll left neighbour, send request, wait for response, wait for left neighbour to conclude, join in completion order): after every schedule the values, root and proofs equal the model and the directory decodes (independent decoder) to exactly the model with every page accounted for. And the branch stage: seed with two bottom branch nodes, one commit deleting 420–440 consecutive keys (≈ 140 leaves) so that the first node falls below the merge threshold and its worker requests nodes from its right neighbour, with three leaf-stage workers running under the scheduler as well (2 batches; every schedule with 0 preemptions quick, ≤1 and a capped ≤2 thorough).",
+        "histx: deviation-bounded enumeration of the option space around the default configuration: every configuration with ≤1 (thorough ≤2) option moved to another menu value {commit_concurrency 2,3,5,6,7,16,64,65; warm_up; adversarial device (the I/O workers deliver the completions of a burst newest first); page cache 0/1 MiB; leaf cache 0/1 MiB; io_workers 2,3; hashtable_buckets 1000 (not a power of two), 65536; another bitbox seed; page_cache_upper_levels 0,1,3 with and without prepopulation; rollback on} × a fixed set of 7 multi-commit histories that span several workers' key ranges (one of them a two-leaf trie whose terminals straddle the range boundaries of 3, 5, 6 and 7 workers), plus the tombstone family (16/32-bucket tables × searched bitbox seeds, pages removed and re-inserted, cold reopen), witnessed batches of 650–1300 warmed-up keys with 1 and 2 workers, batches over 8000 keys on a cold store with minimum caches and 1 / 2 / 64 workers (far more seeks than one worker's in-flight page budget), the shared root page, the elision threshold from both sides (19- and 21-key clusters), overflow values, leaf and branch splits/merges, each with a mid-history reopen; every commit is witnessed; oracle: roots, values, proofs for every universe key, witness verification and update replay all equal the reference model (hence equal across configurations). Thread interleavings of the internal workers: every schedule with ≤2 (thorough: all) preemptions of the three merkle update workers of one witnessed commit (worker start, publish child-page roots, hand back the write pass, root-page phase) under the controlled scheduler, two batches (updates / deletes incl. a root-page leaf). Also ALL schedules (a few hundred per batch) of the three beatree leaf-stage workers of one commit whose ranges are three consecutive leaves that all fall below the merge threshold (three batches: two of three values deleted / values shrunk and last leaf deleted / middle leaf deleted), i.e. of the extend-range protocol between neighbouring workers (poll left neighbour, send request, wait for response, wait for left neighbour to conclude, join in completion order): after every schedule the values, root and proofs equal the model and the directory decodes (independent decoder) to exactly the model with every page accounted for. And the branch stage: seed with two bottom branch nodes, one commit deleting 420–440 consecutive keys (≈ 140 leaves) so that the first node falls below the merge threshold and its worker requests nodes from its right neighbour, with three leaf-stage workers running under the scheduler as well (2 batches; every schedule with 0 preemptions quick, ≤1 and a capped ≤2 thorough).",
     );
     p.budget_s = if thorough { 1700 } else { 55 };
     p.assumptions = vec!["thread interleavings of the internal workers are those the OS scheduler produced in these runs plus the controlled schedules of the schedx engine (see C15 evidence); sequentially-consistent interleavings only".into()];
